@@ -253,3 +253,65 @@ def gen_level(rng, fam, depth, focus, **kw):
     if r >= 0.9:
         return "(%s)(%s)" % (fname, ", ".join(parts))
     return "%s(%s)" % (fname, ", ".join(parts))
+
+
+# ---------------------------------------------------------------------------
+# selectors derived from a call tree: a chain of live activations, captures that are bound on the way, and
+# sibling calls that happen anywhere under the chain before the focus is bound (also inside deeper levels)
+# ---------------------------------------------------------------------------
+
+def _activation(fam, fi, script):
+    """-> {"fn", "binds": [(slot, var)], "calls": [(slot, node)]} for what actually runs"""
+    node = {"fn": fi, "binds": [], "calls": []}
+    for j, (sl, val) in enumerate(zip(fam.slots[fi], script)):
+        if val is None:
+            continue
+        if sl[0] == "bind":
+            node["binds"].append((j, sl[1]))
+        elif sl[0] == "call":
+            node["calls"].append((j, _activation(fam, val[0], val[1])))
+        else:
+            break
+    return node
+
+
+def _descendants(node):
+    out = []
+    for _, c in node["calls"]:
+        out.append(c)
+        out.extend(_descendants(c))
+    return out
+
+
+def directed_selector(rng, fam, fi, script, depth=None):
+    """selector text matching (a chain in) this call tree, or None when the tree is too small"""
+    root = _activation(fam, fi, script)
+    chain = [root]
+    d = rng.randrange(1, 4) if depth is None else depth
+    while len(chain) <= d:
+        below = _descendants(chain[-1])
+        if not below:
+            break
+        chain.append(rng.choice(below))
+    last = chain[-1]
+    if not last["binds"]:
+        return None
+    focus = rng.choice(last["binds"])[1]
+    text = "f%d(!%s)" % (last["fn"], focus)
+    for node in reversed(chain[:-1]):
+        parts = []
+        used = {focus}
+        for _, v in node["binds"]:
+            if v not in used and rng.random() < 0.5:
+                parts.append(v)
+                used.add(v)
+        sibs = [n for n in _descendants(node) if n["binds"] and n not in chain]
+        if sibs and rng.random() < 0.7:
+            sb = rng.choice(sibs)
+            v = rng.choice(sb["binds"])[1]
+            if v not in used:
+                parts.append("f%d(%s)" % (sb["fn"], v))
+                used.add(v)
+        parts.append(text)
+        text = "f%d(%s)" % (node["fn"], ", ".join(parts))
+    return text
